@@ -300,6 +300,14 @@ func (d *Dialer) DialContext(ctx context.Context, urlStr string, requestHeader h
 		}
 	}()
 
+	if deadline, ok := ctx.Deadline(); ok {
+		// The dial function may have left the connection without a deadline:
+		// the SOCKS5 dialer clears it when its own handshake is done.
+		if err := netConn.SetDeadline(deadline); err != nil {
+			return nil, nil, err
+		}
+	}
+
 	// Do TLS handshake over established connection if a proxy exists.
 	if proxyURL != nil && u.Scheme == "https" {
 
